@@ -655,18 +655,19 @@ def engOf : EngineKind → Conv.Engine
 /-- **C03 discharges `TilesAt`**, with exactly C03's hypotheses: at a state where the environment's
     engine answers as C03's model of the three real engines (for any tie-breaking oracle `pick` and any
     reading `view` of the dictionary state as a lookup function), the composition is valid
-    (`CompValid`: F31 excluded), nothing is stored under the empty key (F39), phrases have one
-    character per syllable (`WellFormed`) and — for the simple engine — every syllable has a word
-    (`HasWord`, F30), every alternative tiles the buffer with one character per symbol. -/
+    (`CompValid`: F31 excluded), phrases have one character per syllable (`WellFormed`) and every syllable
+    has a word under the engine's strategy (`HasWord`; otherwise every engine shows the syllable's Bopomofo
+    spelling, F30 — since the F02 / F03 repair also the Chewing engines, which used to abort), every alternative
+    tiles the buffer with one character per symbol. -/
 theorem tilesAt_of_C03 {sh : Shared D L} {pick : Nat → List Conv.Path → Nat} {view : D → Dict}
     (henv : env.convert sh.engine sh.dict sh.com.inner =
       Conv.convert pick (engOf sh.engine) (view sh.dict) sh.com.inner)
-    (hc : Conv.CompValid sh.com.inner) (hd : Conv.NoEmptyKey (view sh.dict)) (hw : Conv.WellFormed (view sh.dict))
-    (hs : engOf sh.engine = .simple → Conv.HasWord (view sh.dict) .standard sh.com.inner) :
+    (hc : Conv.CompValid sh.com.inner) (hw : Conv.WellFormed (view sh.dict))
+    (hh : Conv.HasWord (view sh.dict) (engOf sh.engine).strategy sh.com.inner) :
     TilesAt env sh := by
   intro paths hp p hm
   rw [henv] at hp
-  exact tiles_of_chain (C03.alt_chain hc hd hp p hm) (C03.one_char_per_symbol hc hd hw hs hp p hm)
+  exact tiles_of_chain (C03.alt_chain hc hp p hm) (C03.one_char_per_symbol hc hw hh hp p hm)
 
 /-! ## 4. non-vacuity: a concrete environment with a real (two-entry) dictionary and a trivial engine -/
 
@@ -845,8 +846,8 @@ def convEnv : Env Dict Nat where
     C03's hypotheses hold, hence `TilesAt` -/
 example : TilesAt convEnv
     { syl := 0, dict := C03.dEx, engine := .chewing, com := { cursor := 6, inner := C03.cEx } } :=
-  tilesAt_of_C03 convEnv (pick := Conv.pickFirstMin) (view := id) rfl (by decide) C03.dEx_ok.1 C03.dEx_ok.2
-    (fun h => by cases h)
+  tilesAt_of_C03 convEnv (pick := Conv.pickFirstMin) (view := id) rfl (by decide) C03.dEx_ok.2
+    (by decide)
 
 /-- the editor state after typing `ㄘㄜˋ ㄕˋ` over C03's example dictionary -/
 def shTS : Shared Dict Nat :=
@@ -860,8 +861,8 @@ example : (({ shared := { syl := 0, dict := C03.dEx } } : Editor Dict Nat).run c
 
 /-- … it satisfies C03's hypotheses, hence `TilesAt` by `tilesAt_of_C03` -/
 example : TilesAt convEnv shTS :=
-  tilesAt_of_C03 convEnv (pick := Conv.pickFirstMin) (view := id) rfl (by decide) C03.dEx_ok.1 C03.dEx_ok.2
-    (fun h => by cases h)
+  tilesAt_of_C03 convEnv (pick := Conv.pickFirstMin) (view := id) rfl (by decide) C03.dEx_ok.2
+    (by decide)
 
 /-- … the pre-edit shows the phrase 測試, and `commit()` emits exactly 測試 and empties the pre-edit -/
 example : Shared.display convEnv shTS = .ok [28204, 35430] ∧
@@ -879,9 +880,14 @@ example : ∃ e', ({ shared := { syl := 0, dict := (), com := { cursor := 1, inn
 /-! ## linked (round 2): the ledger over histories WITHOUT the tiling premise
 
 `history_ledger` assumes `TilesAlong` (the engine's answer tiles the buffer at every edited state of the
-history).  C01 proves that editor histories outside its known class (F02 / F03) reach only states satisfying
-`EditorInv` — composition valid (C04 / `CompValid`), cursor in range (C05), a word for every buffered
-syllable — for every environment satisfying `EnvOK`; `EnvOK.convert_ok` is C03's theorem about the engines.
+history, ONE CHARACTER PER SYMBOL).  That is a statement about states in which every buffered syllable has a
+word: since the F02 / F03 repair a syllable without a word no longer aborts the engine, it is shown — and
+committed — as its Bopomofo spelling (1–4 characters for one symbol, C03 `text_shape`), so on such states the
+character ledger does NOT hold as an equation (the harness oracle counts a spelled syllable as one symbol).
+C01 proves that editor histories outside the word-losing class `Known` (the former F02 / F03 class) reach only
+states satisfying `EditorInv … True` — composition valid (C04 / `CompValid`), cursor in range (C05), a word for
+every buffered syllable — for every environment satisfying `EnvOK`; `EnvOK.convert_ok` / `convert_len` are
+C03's theorems about the engines.
 `Proofs/EditorLink.lean` shows that the states INSIDE a step (`editPart`) satisfy the shared-state invariant
 too and derives `TilesAlong` (`Link.tilesAlong_of_allowed`).  Clauses of `EnvOK` used: ALL of them —
 `convert_ok` gives the tiling itself and totality of the commit paths; `wf`, `std_fuzzy`, `add_*`, `update_*`,
@@ -893,21 +899,21 @@ open Chewing.C01
 variable {env} {G : D → Prop}
 
 /-- **C02 over histories, linked**: for every environment satisfying C01's `EnvOK`, from every state
-    satisfying C01's reachable-state invariant, along every history that avoids C01's `Known` class
-    (`Allowed`: valid arguments, not F02/F03; the `jump_*` calls on an open phrase list are included since C01
+    satisfying C01's reachable-state invariant, along every history that avoids C01's word-losing class `Known`
+    (`Allowed`: valid arguments, no operation after which a buffered syllable is left without a word; the `jump_*` calls on an open phrase list are included since C01
     covers them) the ledger equation holds:
     characters of all commit strings + symbols left = symbols at the start + characters accepted.
     No `TilesAlong` premise. -/
-theorem history_ledger_linked (hE : EnvOK env G) {e e' : Editor D L} (hi : EditorInv env G e) {ops : List (Op L)}
+theorem history_ledger_linked (hE : EnvOK env G) {e e' : Editor D L} (hi : EditorInv env G True e) {ops : List (Op L)}
     (ha : Allowed env e ops) {outs : List Text} {acc : Int} (h : e.runLog env ops = .ok (e', outs, acc)) :
     ((outs.flatten).length : Int) + e'.shared.com.len = e.shared.com.len + acc :=
   history_ledger env (Link.tilesAlong_of_allowed hE ops e hi ha) h
 
 /-- … and such a history always HAS a log: it runs to the end (C01), ends in a state satisfying the
     invariant, and the ledger holds -/
-theorem history_ledger_total (hE : EnvOK env G) {e : Editor D L} (hi : EditorInv env G e) {ops : List (Op L)}
+theorem history_ledger_total (hE : EnvOK env G) {e : Editor D L} (hi : EditorInv env G True e) {ops : List (Op L)}
     (ha : Allowed env e ops) :
-    ∃ e' outs acc, e.runLog env ops = .ok (e', outs, acc) ∧ EditorInv env G e' ∧
+    ∃ e' outs acc, e.runLog env ops = .ok (e', outs, acc) ∧ EditorInv env G True e' ∧
       ((outs.flatten).length : Int) + e'.shared.com.len = e.shared.com.len + acc := by
   obtain ⟨e', hr, hi'⟩ := C01_partial_run hE ops e hi ha
   obtain ⟨outs, acc, hl⟩ := run_runLog env hr
@@ -922,7 +928,7 @@ theorem history_ledger_fresh (hE : EnvOK env G) (sh : Shared D L) (hg : G sh.dic
     (ha : Allowed env { shared := sh, state := .entering } ops) :
     ∃ e' outs acc, ({ shared := sh, state := .entering } : Editor D L).runLog env ops = .ok (e', outs, acc) ∧
       ((outs.flatten).length : Int) + e'.shared.com.len = acc := by
-  obtain ⟨e', outs, acc, hl, _, hled⟩ := history_ledger_total hE (initial_inv sh hg hcom hcp hpp hsym) ha
+  obtain ⟨e', outs, acc, hl, _, hled⟩ := history_ledger_total hE (initial_inv sh hg hcom (fun _ => hcp) hpp hsym) ha
   refine ⟨e', outs, acc, hl, ?_⟩
   have h0 : ({ shared := sh, state := .entering } : Editor D L).shared.com.len = 0 := by
     show sh.com.len = 0
@@ -945,12 +951,32 @@ theorem history_ledger_C03 {pick : Nat → List Conv.Path → Nat} {view : D →
 
 /-! ### non-vacuity: a concrete environment over C03's engine model and example dictionary -/
 
-/-- `convEnv` with the engine model on the buffers C03's theorems cover (≤ 128 symbols) -/
+/-- Boolean form of `Conv.SpellNonempty` -/
+def spellOKb (c : Composition) : Bool :=
+  c.symbols.all fun s => match s with
+    | .syl k => !(spell k).isEmpty
+    | .chr _ => true
+
+theorem spellOKb_iff (c : Composition) : spellOKb c = true ↔ Conv.SpellNonempty c := by
+  unfold spellOKb Conv.SpellNonempty
+  rw [List.all_eq_true]
+  constructor
+  · intro h k hk
+    have := h _ hk
+    simp only [Bool.not_eq_true', List.isEmpty_eq_false_iff] at this
+    exact this
+  · intro h x hx
+    cases x with
+    | syl k => simp only [Bool.not_eq_true', List.isEmpty_eq_false_iff]; exact h k hx
+    | chr _ => rfl
+
+/-- `convEnv` with the engine model on the buffers C03's theorems cover (≤ 128 symbols, no syllable with the
+    empty spelling) -/
 def linkEnv : Env Dict Nat :=
   { convEnv with
     convert := fun k d c =>
-      if c.symbols.length ≤ 128 then Conv.convert Conv.pickFirstMin (toEngine k) d c
-      else .ok [singles c.symbols 0] }
+      if c.symbols.length ≤ 128 ∧ spellOKb c = true then Conv.convert Conv.pickFirstMin (toEngine k) d c
+      else .ok [singles (fun _ => true) c.symbols 0] }
 
 theorem linkEnv_dictOK : Link.DictOK linkEnv (fun d => d = C03.dEx) where
   wf := by intro d hd k s p hp; subst hd; exact C03.dEx_ok.2 k s p hp
@@ -966,9 +992,11 @@ theorem linkEnv_dictOK : Link.DictOK linkEnv (fun d => d = C03.dEx) where
 
 theorem linkEnv_engine : Link.EngineIsC03 linkEnv (fun d => d = C03.dEx) Conv.pickFirstMin id where
   pick_ok := C03.pickFirstMin_inRange
-  engine := by intro k d c h; simp only [linkEnv, h, if_true, id]
+  engine := by
+    intro k d c h hn
+    have : c.symbols.length ≤ 128 ∧ spellOKb c = true := ⟨h, (spellOKb_iff c).mpr hn⟩
+    simp only [linkEnv, this, if_true, id, and_self]
   lookup := fun _ _ _ h => h
-  noEmptyKey := by intro d hd; subst hd; exact C03.dEx_ok.1
   wellFormed := by intro d hd; subst hd; exact C03.dEx_ok.2
   freq := by
     intro d hd strat key p hp
@@ -978,16 +1006,33 @@ theorem linkEnv_engine : Link.EngineIsC03 linkEnv (fun d => d = C03.dEx) Conv.pi
     simp only [List.mem_cons, List.not_mem_nil, or_false] at hx
     rcases hx with rfl | rfl | rfl | rfl <;> decide
   beyond := by
-    intro k d c _ _ hlen _
-    have : ¬ c.symbols.length ≤ 128 := by omega
+    intro k d c _ _ hlen
+    have : ¬ (c.symbols.length ≤ 128 ∧ spellOKb c = true) := by
+      rintro ⟨h1, h2⟩
+      rcases hlen with h | h
+      · omega
+      · exact h ((spellOKb_iff c).mp h2)
     simp only [linkEnv, this, if_false]
     refine .ok ⟨by simp, ?_⟩
     intro p hp
     simp only [List.mem_cons, List.not_mem_nil, or_false] at hp
     subst hp
-    refine ⟨?_, singles_text _ 0⟩
-    have := singles_chain c.symbols 0
+    refine ⟨?_, singles_ge _ _ 0⟩
+    have := singles_chain (fun _ => true) c.symbols 0
     simpa using this
+  beyond_len := by
+    intro k d c paths _ _ hlen _ hq
+    have : ¬ (c.symbols.length ≤ 128 ∧ spellOKb c = true) := by
+      rintro ⟨h1, h2⟩
+      rcases hlen with h | h
+      · omega
+      · exact h ((spellOKb_iff c).mp h2)
+    simp only [linkEnv, this, if_false] at hq
+    cases Outcome.ok.inj hq
+    intro p hp
+    simp only [List.mem_cons, List.not_mem_nil, or_false] at hp
+    subst hp
+    exact singles_text _ _ (fun _ _ => rfl) 0
 
 /-- **every key history** on the fresh editor over C03's engine model and example dictionary runs to the
     end and satisfies the ledger — no premise left -/
